@@ -586,6 +586,18 @@ class SymExec:
         self.owner = owner
         self.inline_depth = inline_depth
         self.unknown = []
+        self.mod = None
+
+    def _const_def(self, name):
+        if "::" in name or not name.isupper() and not (name.upper() == name):
+            return None
+        hits = [c for (m, n), c in self.facts.consts.items() if n == name and (self.mod is None or m == self.mod)]
+        if len(hits) != 1:
+            return None
+        init = hits[0].get("init")
+        if init is None or init.get("k") == "lit":
+            return None
+        return init
 
     # -- expression evaluation: substitute locals / assigned fields -----------------------------
     def eval(self, e, st, depth=0):
@@ -599,6 +611,11 @@ class SymExec:
         if k == "path":
             if e["p"] in st.locals:
                 return copy.deepcopy(st.locals[e["p"]])
+            # a module constant defined by an expression (not a plain literal) is replaced by its definition, so that
+            # `const START: f64 = -(LEN / 2) as f64` and the same expression written in place are the same value to the rules
+            c = self._const_def(e["p"])
+            if c is not None and depth < 6:
+                return self.eval(copy.deepcopy(c), SymState(), depth + 1)
             return e
         if k == "field" and is_path(e["e"], "self"):
             if e["name"] in st.fields:
@@ -891,6 +908,8 @@ class SymExec:
             pass
 
     def run(self, fn, params_as=None):
+        rel = fn.get("_file")
+        self.mod = Facts._modname(rel) if rel else None
         st = SymState()
         for p in fn["params"]:
             if p.get("name"):
@@ -950,6 +969,43 @@ def locate(root, pred):
 
     rec(root, [], [])
     return out
+
+
+def binding_of(fn, node, name):
+    """The binding that a mention of local `name` at `node` (a node of fn's body, by identity) refers to:
+    ("let", stmt) | ("for", for-node) | ("closure", closure-node) | ("param", param) | None."""
+    hits = locate(fn["body"], lambda x: x is node)
+    if not hits:
+        return None
+    _, chain, ctrl = hits[0]
+    # innermost scope first: walk the chain from the innermost block outwards; within a block, the nearest earlier `let`
+    cands = []
+    for depth, (blk, idx) in enumerate(chain):
+        for s in blk["stmts"][:idx]:
+            if s.get("k") == "let" and name in pat_names(s["pat"]):
+                cands.append((depth, 1, s.get("ln", 0), ("let", s)))
+    for c in ctrl:
+        if c.get("k") == "for" and name in pat_names(c["pat"]):
+            # the loop pattern is in scope inside the loop body: deeper than any block enclosing the loop
+            d = 0
+            for depth, (blk, idx) in enumerate(chain):
+                if blk["stmts"][idx] is c or any(y is c for y in walk(blk["stmts"][idx])):
+                    d = depth
+            cands.append((d, 2, c.get("ln", 0), ("for", c)))
+        if c.get("k") == "closure" and any(name in pat_names(p) for p in c["params"]):
+            d = 0
+            for depth, (blk, idx) in enumerate(chain):
+                if any(y is c for y in walk(blk["stmts"][idx])):
+                    d = depth
+            cands.append((d, 2, c.get("ln", 0), ("closure", c)))
+    if cands:
+        # deepest scope wins; in the same block a construct containing the node (for/closure: kind 2) binds tighter than an earlier let
+        cands.sort(key=lambda t: (t[0], t[1], t[2]))
+        return cands[-1][3]
+    for p in fn["params"]:
+        if p.get("name") == name:
+            return ("param", p)
+    return None
 
 
 def earlier_stmts(chain):
